@@ -9,7 +9,8 @@ A *history* is JSON-able data (all times are integer MICROSECONDS):
   body                list of commands (what the action does when it runs, after logging
                       (label, clock reading))
   table               [[ [state, result], ... ], default]   result = ["next", notes, st] |
-                      ["disp", notes] | ["raise", notes, e]
+                      ["next", notes, st, sleep_us] (the action calls scheduler.sleep(sleep_us) before
+                      returning: it takes virtual time) | ["disp", notes] | ["raise", notes, e]
 
 `run_impl` executes it on the real scheduler and returns the observation list
 (the same alphabet as Core/VTime.v `oev`); `g_history` prints it as a Gallina
@@ -154,6 +155,10 @@ def run_impl(world, c0, history, catch=None, timeout=10.0, iwp=False, clock_via=
             for n in r[1]:
                 obs.append(("note", n))
             if r[0] == "next":
+                if len(r) > 3 and r[3]:
+                    before = read()
+                    s.sleep(w.rel_(r[3]))                 # the periodic action takes virtual time
+                    trace.append(("sleep", r[3], before, read()))
                 return r[2]
             if r[0] == "disp":
                 trace.append(("pcancel", pid))
@@ -271,7 +276,7 @@ def g_notes(ns):
 
 def g_pres(r):
     if r[0] == "next":
-        return f"PNext {g_notes(r[1])} {gz(r[2])}"
+        return f"PNext {g_notes(r[1])} {int(r[3]) if len(r) > 3 else 0}%N {gz(r[2])}"
     if r[0] == "disp":
         return f"PNextDisposed {g_notes(r[1])}"
     return f"PRaise {g_notes(r[1])} {gz(r[2])}"
@@ -372,7 +377,7 @@ class Gen:
 
     def __init__(self, rng, unit=US, labels=None, allow=("cancel", "stop", "sleep"), max_depth=3,
                  neg=True, raise_p=0.0, periodic_p=0.0,
-                 table_kinds=("count", "count", "cycle", "raise", "disp")):
+                 table_kinds=("count", "count", "cycle", "raise", "disp"), sleep_p=0.0):
         self.rng, self.unit, self.allow, self.max_depth = rng, unit, allow, max_depth
         self.next_label = 0
         self.neg = neg
@@ -380,6 +385,7 @@ class Gen:
         self.nsched = 0
         self.nper = 0
         self.table_kinds = table_kinds
+        self.sleep_p = sleep_p
 
     def delay(self):
         r = self.rng
@@ -399,13 +405,17 @@ class Gen:
             return ["abs", self.abst()]
         return ["now"]
 
-    def table(self):
+    def table(self, p=None):
         r = self.rng
         n = r.choice([1, 2, 3, 4, 6])
         kind = r.choice(self.table_kinds)
         entries = []
         for i in range(n):
-            entries.append([i, ["next", [], (i + 1) if kind != "cycle" else (i + 1) % n]])
+            e = ["next", [], (i + 1) if kind != "cycle" else (i + 1) % n]
+            if p and r.random() < self.sleep_p:
+                # the action takes virtual time: fractions of the period, the period, sometimes more
+                e.append(r.choice([p // 4, p // 2, p // 4, p, p + p // 2, 3 * p // 4]))
+            entries.append([i, e])
         if kind == "raise":
             default = ["raise", [], r.randrange(0, 3)]
         elif kind == "disp":
@@ -424,7 +434,7 @@ class Gen:
         if x < self.raise_p + self.periodic_p:
             self.nper += 1
             p = r.choice([1, 1, 2, 3]) * self.unit
-            return ["periodic", p, self.table(), 0]
+            return ["periodic", p, self.table(p), 0]
         x = r.random()
         if x < 0.55 or not self.allow:
             return self.sched(depth)
